@@ -29,14 +29,15 @@ def safe_check(s, timeout_ms):
         t.cancel()
 
 
-def to_smt2(axioms, pc, goal):
+def to_smt2(axioms, pc, goal, simplify=True):
     s = z3.Solver()
     # simplify beta-reduces select-of-lambda, which keeps the text inside what cvc5 parses
+    f_ = z3.simplify if simplify else (lambda x: x)
     for a in axioms:
-        s.add(z3.simplify(a))
+        s.add(f_(a))
     for f in pc:
-        s.add(z3.simplify(f))
-    s.add(z3.simplify(z3.Not(goal)))
+        s.add(f_(f))
+    s.add(f_(z3.Not(goal)))
     return s.to_smt2()
 
 
@@ -118,13 +119,16 @@ def _relevant(assertions, hops):
 
 
 def _solve(task):
-    oid, idx, smt2, timeout_ms, want_model, use_cvc5 = task
+    oid, idx, smt2, timeout_ms, want_model, use_cvc5 = task[:6]
+    seed, vname = (task[6], task[7]) if len(task) > 6 else (0, "")
     t0 = time.time()
-    res, model, backend, detail = "unknown", None, "z3", ""
+    res, model, backend, detail = "unknown", None, "z3" + (f"[{vname}]" if vname else ""), ""
     try:
         ctx = z3.Context()
         s = z3.Solver(ctx=ctx)
         s.from_string(smt2)
+        if seed:
+            s.set("random_seed", seed)
         r = safe_check(s, timeout_ms)
         res = str(r)
         if r == z3.sat and want_model:
@@ -140,8 +144,10 @@ def _solve(task):
                 s2 = z3.Solver(ctx=ctx)
                 for f in sub:
                     s2.add(f)
+                if seed:
+                    s2.set("random_seed", seed)
                 if safe_check(s2, max(2000, timeout_ms // 3)) == z3.unsat:
-                    res, backend, detail = "unsat", f"z3(relevance-{hops})", ""
+                    res, backend, detail = "unsat", f"z3(relevance-{hops})" + (f"[{vname}]" if vname else ""), ""
                     break
     except Exception as e:
         res, detail = "unknown", f"z3 error: {e}"
@@ -199,6 +205,125 @@ def discharge(obls, axioms, timeout_ms=20000, workers=16, use_cvc5=True):
     return out
 
 
+# The quantified queries of the larger units are UNSTABLE in z3: the same obligation is `unsat` in half a second or `unknown` after
+# the whole budget depending on term order and random seed (measured on ScatterStep._scatter/inv_step#0.1: 3 of 8 variants
+# succeed), and which one happens changes with machine load.  An obligation that survives the short in-process attempt is
+# therefore given to a PORTFOLIO: the same formula as simplified and as raw text, under several random seeds, in separate
+# processes.  Every variant is the full query (axioms + path condition + negated goal), so `unsat` from any of them is a proof and
+# `sat` from any of them is a counter-model; the first decisive answer wins and the other variants of that obligation are killed.
+VARIANTS = (("simp", 0), ("raw", 0), ("simp-s3", 3), ("raw-s2", 2), ("raw-s5", 5), ("simp-s7", 7))
+
+
+def _child(task, conn):
+    try:
+        os.setsid()  # own process group: killing the group also ends a cvc5 child
+    except OSError:
+        pass
+    try:
+        conn.send(_solve(task))
+    except BaseException as e:  # pragma: no cover
+        try:
+            conn.send((task[0], task[1], "unknown", None, "z3", 0.0, f"worker error: {e}"))
+        except Exception:
+            pass
+    finally:
+        conn.close()
+
+
+def _kill(proc):
+    import signal
+
+    try:
+        os.killpg(proc.pid, signal.SIGKILL)
+    except (ProcessLookupError, PermissionError, OSError):
+        try:
+            proc.kill()
+        except Exception:
+            pass
+
+
+def _portfolio(tasks, workers):
+    """tasks: [(rank, solve_task)]; -> {idx: (result, model, backend, time, detail)}.  Variants are scheduled rank by rank (every
+    obligation gets its first variant before any gets its second), at most `workers` processes at a time, one pipe per process
+    (a killed process can then corrupt nothing but its own pipe)."""
+    import multiprocessing as mp
+    from multiprocessing.connection import wait
+
+    ctx = mp.get_context("fork")
+    pending = sorted(tasks, key=lambda t: (t[0], t[1][1]))
+    running = {}  # conn -> (proc, idx, t0, hard limit in s)
+    answers = {}  # idx -> [(result, model, backend, time, detail)]
+    done = {}
+    total = {}
+    for _, t in tasks:
+        total[t[1]] = total.get(t[1], 0) + 1
+
+    def settle(idx):
+        rs = answers.get(idx, [])
+        best = None
+        for want in ("unsat", "sat"):
+            cands = [r for r in rs if r[0] == want]
+            if cands:
+                # a counter-model is worth more than a bare `sat`
+                cands.sort(key=lambda r: (r[1] is None, r[3]))
+                best = cands[0]
+                break
+        if best is None and len(rs) >= total[idx]:
+            det = " || ".join(sorted({f"{r[2]}: {r[4]}" for r in rs if r[4]}))
+            best = ("unknown", None, "z3", max([r[3] for r in rs] or [0.0]), det[:600])
+        if best is not None:
+            done[idx] = best
+        return best is not None
+
+    while pending or running:
+        while pending and len(running) < workers:
+            _, t = pending.pop(0)
+            if t[1] in done:
+                continue
+            pc, cc = ctx.Pipe(False)
+            p = ctx.Process(target=_child, args=(t, cc), daemon=True)
+            p.start()
+            cc.close()
+            running[pc] = (p, t[1], time.time(), 3.0 * t[3] / 1000.0 + 30.0)
+        if not running:
+            continue
+        # hard deadline per process (z3 budget + two relevance attempts + cvc5, with slack): a worker that is still there after it
+        # is stuck, not thinking — it is killed and counts as `unknown`
+        now = time.time()
+        for c2, (p2, i2, t2, lim) in list(running.items()):
+            if now - t2 > lim:
+                _kill(p2)
+                running.pop(c2)
+                c2.close()
+                p2.join(5)
+                if i2 not in done:
+                    answers.setdefault(i2, []).append(("unknown", None, "z3", now - t2, "worker exceeded its hard deadline"))
+                    settle(i2)
+        for conn in wait(list(running), timeout=1.0):
+            if conn not in running:
+                continue  # a variant of an obligation settled earlier in this batch: already killed
+            p, idx, t0, _lim = running.pop(conn)
+            try:
+                r = conn.recv()
+                ans = (r[2], r[3], r[4], r[5], r[6])
+            except (EOFError, OSError):
+                ans = ("unknown", None, "z3", time.time() - t0, "worker died")
+            conn.close()
+            p.join(5)
+            if idx in done:
+                continue
+            answers.setdefault(idx, []).append(ans)
+            if settle(idx):
+                pending = [x for x in pending if x[1][1] != idx]
+                for c2, (p2, i2, _t, _l) in list(running.items()):
+                    if i2 == idx:
+                        _kill(p2)
+                        running.pop(c2)
+                        c2.close()
+                        p2.join(5)
+    return done
+
+
 def discharge_jobs(jobs, timeout_ms=20000, workers=16, use_cvc5=True, fast_ms=1500):
     """jobs: [(Obligation, axioms, unit, unit_kind)].  Each obligation is first tried in-process with a short
     budget (most discharge in milliseconds); the rest go to the pool with the full budget."""
@@ -223,10 +348,14 @@ def discharge_jobs(jobs, timeout_ms=20000, workers=16, use_cvc5=True, fast_ms=15
         for i in slow:
             o, axioms, unit, ukind = jobs[i]
             tmo = timeout_ms if o.expect == "unsat" else min(timeout_ms, 3000)
-            tasks.append((o.oid, i, to_smt2(axioms, o.pc, o.goal), tmo, True, use_cvc5 and o.expect == "unsat"))
-        with ProcessPoolExecutor(max_workers=min(workers, len(tasks))) as ex:
-            for r in ex.map(_solve, tasks, chunksize=1):
-                out[r[1]] = (r[2], r[3], r[4], r[5], r[6])
+            simp = to_smt2(axioms, o.pc, o.goal)
+            raw = to_smt2(axioms, o.pc, o.goal, simplify=False)
+            for rank, (vname, seed) in enumerate(VARIANTS):
+                txt = simp if vname.startswith("simp") else raw
+                # cvc5 gives a second opinion once per obligation (on the simplified text, which is what it parses)
+                tasks.append((rank, (o.oid, i, txt, tmo, True, use_cvc5 and o.expect == "unsat" and rank == 0, seed, vname if rank else "")))
+        for i, r in _portfolio(tasks, workers).items():
+            out[i] = r
     res = []
     for (o, axioms, unit, ukind), r in zip(jobs, out):
         res.append(
